@@ -101,6 +101,15 @@ def _get_raw_data_from_p8_file(instr, filename=None):
     return data
 
 
+def _is_path_within(path, root):
+    """Whether path names something under the directory root.
+
+    (A plain startswith() also accepts sibling directories whose names begin
+    with the name of root: /carts/foobar is not within /carts/foo.)
+    """
+    return path.startswith(root.rstrip(os.sep) + os.sep)
+
+
 def get_root_include_path(filename):
     """Determines the root path for the purposes of includes.
 
@@ -126,7 +135,7 @@ def get_root_include_path(filename):
         full_candidate_path = os.path.abspath(
             os.path.normpath(
                 os.path.expanduser(candidate)))
-        if full_file_path.startswith(full_candidate_path):
+        if _is_path_within(full_file_path, full_candidate_path):
             root_path = full_candidate_path
     if root_path is None:
         root_path = os.path.dirname(full_file_path)
@@ -186,7 +195,7 @@ def process_includes(lualines, filename=None):
             os.path.normpath(
                 os.path.join(
                     os.path.dirname(filename), inc_path + inc_extension)))
-        if not inc_full_path.startswith(root_path):
+        if not _is_path_within(inc_full_path, root_path):
             raise P8IncludeOutsideOfAllowedDirectory()
         if not os.path.isfile(inc_full_path):
             raise P8IncludeNotFound()
